@@ -16,7 +16,10 @@ WORDS = ["alpha", "Bravo", "čárka", "δέλτα", "echo & co", "fox<trot>", "g
          "индия", "juliet's", "キロ", "lima]]>", "mike nbsp", "𝒏ovember", "🙂scar", "papa\ttab",
          "q=1&r=2", "<!--not a comment-->", "  padded  ", "x" * 40]
 TAGS = ["mosAbstract", "objSlug", "objDur", "objTB", "ncsItem", "studioCommand", "text", "b", "i",
-        "custom-tag", "ns_tag", "Element.With.Dots"]
+        "custom-tag", "ns_tag", "Element.With.Dots",
+        # look-alikes of structural elements, nested where they mean nothing (depth >= 3)
+        "item", "story", "storyID", "itemID", "p", "roID", "mosExternalMetadata", "mosPayload", "StoryDuration",
+        "storyBody", "storyItem", "roCreate", "roDelete", "mosromgrmeta"]
 ATTRS = ["type", "techDescription", "lang", "data-x", "id"]
 
 
@@ -56,6 +59,8 @@ def id_style_map(style):
 def restyle(obj, f):
     """rename every id in an abstract value (nodes and references); tokens are left alone"""
     if isinstance(obj, dict):
+        if obj.get("tag") in ("messageID", "roID"):      # a number / the running order's own id: not story or item ids
+            return obj
         out = {}
         for k, v in obj.items():
             if k == "id" and isinstance(v, str):
